@@ -479,6 +479,8 @@ def _oracle_findings(r, margin=10.0):
         tol = tols[s_]
         if zero_scale and s_ in ('explained', 'deviance'):
             continue
+        if s_ == 'explained' and not (abs(O.get('D0', 1.0)) > 0):
+            continue        # null deviance exactly 0 (a single observation): 1 - D / 0 is +-inf by the sign of rounding noise in D
         if not _close(I[s_], O[s_], (tol or 0.0) * margin, rtol=1e-9 * margin):
             bad.append((s_, I[s_], O[s_], 'tol %.3g' % ((tol or 0.0) * margin)))
     # log-likelihood against the closed-form densities
